@@ -304,6 +304,7 @@ func (c *Ctx) recoveryNameGuards(rule string) {
 func c20(c *Ctx) {
 	defer c20hashCoversBodies(c)
 	defer c20eraseVisitsAll(c)
+	defer c20copyOutHandlesEveryMessage(c)
 	P, R := c.P, c.R
 	R.Explain("R20.1", "T-MUST: in Mailbox.Append every path on which AppendRegular returned an error reaches the transaction that calls actionCreateRecoveredMessage, except on the true edge of errors.Is(err, connector.ErrMessageSizeExceedsLimits).")
 	R.Explain("R20.2", "T-CALLERS: AppendRegular is called only by Mailbox.Append; handleAppend appends only through AppendOnlyMailbox.Append and sends the APPENDUID OK only on the nil edge with the UID Append returned.")
@@ -700,4 +701,39 @@ func c20eraseVisitsAll(c *Ctx) {
 		R.Check(del, "R20.7", c.name(f)+"|loop deletes", P.Pos(firstPosOf(h)), "the loop deletes map entries", "the loop over the ids no longer deletes anything")
 	}
 	R.Min("R20.7", "loops over the ids in Erase", n, 1)
+}
+
+// c20copyOutHandlesEveryMessage (R20.8): every message named in a copy or move out of the recovery mailbox arrives.
+func c20copyOutHandlesEveryMessage(c *Ctx) {
+	P, R := c.P, c.R
+	R.Explain("R20.8", "recovered messages can be moved or copied out: in actionCopyMessagesOutOfRecoveryMailbox / actionMoveMessagesOutOfRecoveryMailbox the id that actionImportRecoveredMessage returns for a message is consumed (appended to the list that is then added to the destination) on every path of the loop iteration that does not fail - whatever the import reported about duplicates.  An iteration that skips the append answers OK for a message that never reaches the destination mailbox.")
+	n := 0
+	for _, name := range []string{"internal/state.(*State).actionCopyMessagesOutOfRecoveryMailbox", "internal/state.(*State).actionMoveMessagesOutOfRecoveryMailbox"} {
+		top := c.fn("R20.8", name)
+		if top == nil {
+			continue
+		}
+		for _, f := range c.withPackageHelpers(top, "internal/state", 1) {
+			for _, cs := range engine.Calls(f) {
+				sc := cs.Common().StaticCallee()
+				if sc == nil || engine.ShortName(sc) != "actionImportRecoveredMessage" {
+					continue
+				}
+				call, ok := cs.Instr.(*ssa.Call)
+				if !ok || call.Referrers() == nil {
+					continue
+				}
+				for _, r := range *call.Referrers() {
+					ex, ok := r.(*ssa.Extract)
+					if !ok || !engine.IsNamed(ex.Type(), "db", "MessageIDPair") {
+						continue
+					}
+					n++
+					esc := updatesDroppedOnPath(f, ex)
+					R.Check(!esc.IsValid(), "R20.8", c.name(top)+"|imported id consumed", P.Pos(call.Pos()), "the imported id is appended on every non-failing path of the iteration", "the id of an imported recovered message can be dropped ("+P.Pos(esc)+"): the command answers OK although that message is not added to the destination")
+				}
+			}
+		}
+	}
+	R.Min("R20.8", "imports in copy/move out of the recovery mailbox", n, 2)
 }
